@@ -3,6 +3,7 @@ package main
 // C07: content obeys the signed-attribute rules (wrapper, JWS, COSE, siblings).
 
 import (
+	"go/types"
 	"strings"
 )
 
@@ -68,7 +69,7 @@ func jwsContentReqs(t jwsTerms) []treq {
 
 type coseTerms struct {
 	P, crit, scheme, label, hmap, algMap, labelMap string
-	enc, dec                                          string // the package's CBOR encoder / decoder mode objects
+	enc, dec                                       string // the package's CBOR encoder / decoder mode objects
 }
 
 func coseNames(c *Check) coseTerms {
@@ -81,6 +82,20 @@ func coseNames(c *Check) coseTerms {
 	}
 	for _, g := range c.globalsOfType("ncg/signature/cose", "map[ncg/signature.SigningScheme]string") {
 		t.labelMap = g
+	}
+	if t.labelMap == "" {
+		// the scheme->label table kept as a function (switch) instead of a map
+		for _, fs := range c.P.productFuncs() {
+			if !strings.HasSuffix(fs.Pkg.PkgPath, "/signature/cose") {
+				continue
+			}
+			sig := fs.Obj.Type().(*types.Signature)
+			if sig.Params().Len() == 1 && c.P.typeStr(sig.Params().At(0).Type()) == "ncg/signature.SigningScheme" {
+				if _, ok := c.P.pureTable(fs.Obj); ok {
+					t.labelMap = c.P.abbrev(fs.Obj.FullName())
+				}
+			}
+		}
 	}
 	t.enc, t.dec = "ncg/signature/cose.encMode", "ncg/signature/cose.decMode"
 	for _, g := range c.globalsOfType("ncg/signature/cose", "github.com/fxamacker/cbor/v2.EncMode") {
